@@ -170,10 +170,10 @@ def showTap (internal : List UInt8) (leaves : List TapTree) : String :=
 
 def handle : List String → String
   | ["b58e", b] => match hexToList? b with
-    | some b => tok (b58Encode b)
+    | some b => if b58EncodeAlgo b = b58Encode b then tok (b58Encode b) else "model-mismatch"
     | none => "bad-op"
   | ["b58d", s] => match hexToList? s with
-    | some s => tok (b58Decode s)
+    | some s => if b58DecodeAlgo s = b58Decode s then tok (b58Decode s) else "model-mismatch"
     | none => "bad-op"
   | ["chke", v, p] => match hexToList? v, hexToList? p with
     | some [v], some p => tok (checkEncode cksum4 p v)
